@@ -337,6 +337,79 @@ def repo_argument_case(_):
     return out
 
 
+def _register_child(top, what, regs, how):
+    """A provider registers a storage / runner type, environments are built from a configuration naming it; the provider
+    registers a newer class under the same name (regs times in all). Whatever is built afterwards from the configuration -
+    directly, through create(), or from the dump of the earlier environment - is an instance of the class registered last."""
+    import twosigma.memento as m
+    from twosigma.memento import RunnerBackend, StorageBackend
+    from twosigma.memento.runner_local import LocalRunnerBackend
+    from twosigma.memento.storage_memory import MemoryStorageBackend
+
+    TYPE = "vf-registered-%s" % what
+    classes = []
+    for g in range(regs):
+        if what == "runner":
+            def init(self, config=None):
+                LocalRunnerBackend.__init__(self, config)
+                self.runner_type = TYPE
+            classes.append(type("RunnerV%d" % g, (LocalRunnerBackend,), {"generation": g, "__init__": init, "to_dict": lambda self: {"type": TYPE}}))
+        else:
+            def init(self, config=None, read_only=None):
+                MemoryStorageBackend.__init__(self, config, read_only)
+                self.storage_type = TYPE
+            classes.append(type("StoreV%d" % g, (MemoryStorageBackend,), {"generation": g, "__init__": init, "to_dict": lambda self: {"type": TYPE}}))
+    reg = RunnerBackend.register if what == "runner" else StorageBackend.register
+
+    def config():
+        cl = {"name": "ca", "storage": {"type": "filesystem", "path": os.path.join(top, "s")}}
+        if what == "runner":
+            cl["runner"] = {"type": TYPE}
+        else:
+            cl["storage"] = {"type": TYPE}
+        return {"name": "e", "base_dir": top, "repos": [{"name": "r", "clusters": {"ca": cl}}]}
+
+    def part(env):
+        c = env.get_cluster("ca")
+        return c.runner if what == "runner" else c.storage
+
+    obs = []
+    dump = None
+    for g, cls in enumerate(classes):
+        reg(TYPE, cls)
+        if how == "config":
+            got = part(m.Environment(config=config()))
+        elif how == "create":
+            got = (RunnerBackend.create if what == "runner" else StorageBackend.create)(TYPE, {"type": TYPE})
+        else:  # the dump of the environment built under the previous registration
+            got = part(m.Environment(config=dump if dump is not None else config()))
+        obs.append((g, getattr(got, "generation", "not-a-registered-class:%s" % type(got).__name__)))
+        dump = m.Environment(config=config()).to_dict()
+    return obs
+
+
+def register_case(args):
+    from .. import farm
+    from ..core import HarnessError
+
+    what, regs, how = args
+    top = scratch_dir("c18g")
+    out = {"evaluations": 1, "states": regs, "transitions": regs, "traces": 1, "violations": [], "outcomes": ["register|%s|%d|%s" % args]}
+    try:
+        obs = farm.fork_call(_register_child, top, what, regs, how)
+    except farm.ChildFailed as e:
+        raise HarnessError("registration child failed for %s: %s" % (args, e))
+    finally:
+        rm(top)
+    for g, got in obs:
+        if got != g:
+            out["violations"].append(("register|%s|%s|stale-class" % (what, how), "after registration #%d of the %s type, a %s built from %s is generation %s"
+                                      % (g + 1, what, what, {"config": "the configuration", "create": "create()", "dump": "the dump of the earlier environment"}[how], got),
+                                      {"register": list(args)}))
+            break
+    return out
+
+
 def priority_case(args):
     """Repository priority: first repository defining the name wins; also after prepend / append."""
     import twosigma.memento as m
@@ -442,6 +515,9 @@ def run(ctx):
                         ptasks.append((spec, (op, names)))
     ctx.merge(pmap(priority_case, ptasks, chunksize=8))
     ctx.merge([repo_argument_case(None)])
+    gt = [(what, regs, how) for what in ("runner", "storage") for regs in (1, 2, 3) for how in ("config", "create", "dump")]
+    ctx.merge(pmap(register_case, gt, chunksize=2))
+    ctx.rule += " Plus: a storage / runner type name registered 1..3 times (newer classes), environments built from a configuration naming it, through create(), and from the dump of an earlier environment."
     ctx.extra["option_cases"] = len(tasks)
     ctx.extra["priority_cases"] = len(ptasks)
     ctx.sample({"option": [tasks[40][0], tasks[40][1]]})
@@ -454,6 +530,8 @@ def replay(ctx, art):
         r = option_case((a["option"][0], a["option"][1]))
     elif "repo_argument" in a:
         r = repo_argument_case(None)
+    elif "register" in a:
+        r = register_case(tuple(a["register"]))
     elif "override" in a:
         r = override_case(a["override"])
     else:
